@@ -77,6 +77,8 @@ pub fn generate(focus: Focus, seed: u64, run: u64, _tier: Tier, st: &mut Stats) 
         Focus::C06 => *rw.pick(&["junk", "junk", "junk", "junk", "any"]),
         Focus::C16 => *rw.pick(&["any", "any", "any", "dialect", "dialect", "payload"]),
     };
+    // 1 run in 40 (C03, C16): a bulk string of an amplification-friendly length, hit by F-AMP alone
+    let mode: &str = if matches!(focus, Focus::C03 | Focus::C16) && rw.chance(1, 40) { "amp" } else { mode };
     let storage = match mode {
         "junk" => true,
         _ => {
@@ -142,6 +144,11 @@ pub fn generate(focus: Focus, seed: u64, run: u64, _tier: Tier, st: &mut Stats) 
             let mut recs: Vec<Rec> = (0..n)
                 .map(|_| if foreign_pct > 0 && rw.chance(foreign_pct, 100) { gen_foreign_record(&mut rw, storage) } else { gen_record(&mut rw, &swarm) })
                 .collect();
+            if mode == "amp" {
+                recs.truncate(2);
+                let at = rw.below(recs.len() + 1);
+                recs.insert(at, crate::gen::amp_record(&mut rw, &swarm));
+            }
             for rec in &recs {
                 st.inc(match rec.kind {
                     "verbose" => "rec_verbose",
@@ -154,6 +161,7 @@ pub fn generate(focus: Focus, seed: u64, run: u64, _tier: Tier, st: &mut Stats) 
                 });
             }
             let plan = match mode {
+                "amp" => FaultPlan::only(crate::faults::F_AMP),
                 "clean" | "dialect" => {
                     if mode == "dialect" && rf.chance(1, 3) {
                         FaultPlan::draw(&mut rf, Confine::Payload, storage)
@@ -166,7 +174,21 @@ pub fn generate(focus: Focus, seed: u64, run: u64, _tier: Tier, st: &mut Stats) 
                     let k = 1 + rf.below(4);
                     for _ in 0..k {
                         let at = rf.below(recs.len() + 1);
-                        let j = junk_rec(&mut rf);
+                        let j = if rf.chance(1, 8) {
+                            // the junk is a complete, well-formed record WITHOUT storage header (a
+                            // live capture merged into a stored trace), ids from the same swarm
+                            let mut sw = swarm.clone();
+                            sw.storage = false;
+                            sw.size_w = [4, 2, 0, 0];
+                            sw.dup_pct = 0;
+                            let mut b = gen_record(&mut rf, &sw);
+                            b.kind = "junk";
+                            b.regs = vec![crate::gen::Reg { start: 0, end: b.bytes.len(), kind: crate::gen::Region::Junk }];
+                            st.inc("junk_is_bare_record");
+                            b
+                        } else {
+                            junk_rec(&mut rf)
+                        };
                         if !j.bytes.is_empty() {
                             st.inc("F-JUNK");
                             notes.push(format!("F-JUNK {} bytes before element {}", j.bytes.len(), at));
@@ -690,6 +712,12 @@ fn run_sc<'a>(
     let mut src = ScriptedRead(core.clone());
     let mut sc = Sc { storage: case.storage, filter, declared_skip, buf: Vec::with_capacity(data.len()), pos: 0, oks: vec![], items: vec![], verdict_at: vec![], stopped: false, h: Fnv::default(), big_searches: 0 };
     let mut tmp = vec![0u8; 70_000];
+    // 0, 1 or 5 idle polls after every arrival, decided by the case (aux[0]: replayable)
+    let idle_polls = match case.aux.first().copied().unwrap_or(0) % 4 {
+        0 => 5,
+        1 => 1,
+        _ => 0,
+    };
     loop {
         let n = match src.read(&mut tmp) {
             Ok(n) => n,
@@ -701,6 +729,14 @@ fn run_sc<'a>(
         sc.buf.extend_from_slice(&tmp[..n]);
         st.inc("arrivals");
         sc.pump(focus, clean_starts, data.len(), v, st);
+        // idle polls: a timer-driven caller runs the parser again although nothing new arrived;
+        // the verdicts (and everything the oracles check on them) must be the same every time
+        if idle_polls > 0 && v.is_empty() && !sc.stopped {
+            for _ in 0..idle_polls {
+                sc.pump(focus, clean_starts, data.len(), v, st);
+                st.inc("idle_polls");
+            }
+        }
         // a clause of another property never decides (or cuts short) this property's run
         v.retain(|x| x.clause.starts_with(focus.id()));
         if sc.stopped || !v.is_empty() {
@@ -751,6 +787,13 @@ pub fn execute(case: &StreamCase, focus: Focus, st: &mut Stats) -> Exec {
                 if fname == "filter" && f.is_none() {
                     continue;
                 }
+                // every fourth cut: the same prefix five times in a row (a caller that polls
+                // without new data); each answer is judged on its own
+                let reps = if cut % 4 == 1 && fname == "none" { 5 } else { 1 };
+                for _rep in 0..reps {
+                if !v.is_empty() {
+                    break;
+                }
                 match guarded(|| dlt_message(prefix, f, case.storage).map(|(rest, pm)| (rest.len(), format!("{:?}", pm).chars().take(80).collect::<String>()))) {
                     Err(p) => v.push(Violation::new("C05.a", &format!("panic@{}", panic_site(&p)), format!("cut {} of {}: dlt_message panicked: {}", cut, data.len(), p))),
                     Ok(Ok((rest, pm))) => v.push(Violation::new("C05.a", "message-from-proper-prefix", format!("cut {} of {} (filter {}): parser returned Ok({} left, {})", cut, data.len(), fname, rest, pm))),
@@ -765,6 +808,7 @@ pub fn execute(case: &StreamCase, focus: Focus, st: &mut Stats) -> Exec {
                         }
                     }
                     Ok(Err(e)) => v.push(Violation::new("C05.a", "hard-error-on-proper-prefix", format!("cut {} of {} (filter {}): parser returned {:?}", cut, data.len(), fname, e))),
+                }
                 }
             }
             if case.storage {
@@ -1158,6 +1202,7 @@ pub fn one_run(focus: Focus, seed: u64, run: u64, tier: Tier, st: &mut Stats) ->
         "cut" => "mode_cut",
         "soup" => "mode_soup",
         "dialect" => "mode_dialect",
+        "amp" => "mode_amp",
         _ => "mode_other",
     });
     let ex = execute(&case, focus, st);
